@@ -543,7 +543,7 @@ def harness(ctx, cfg):
             else:
                 iv = act.inverse()
                 S2 = Snap(p, k)
-                iv.inverse()
+                iv2 = iv.inverse()
                 S3 = Snap(p, k)
                 r1 = r2 = True
                 e2 = e3 = [()]
@@ -555,6 +555,43 @@ def harness(ctx, cfg):
             if want("C01"):
                 ctx.oblige("C01.inverse_applies", False, "C01")
             return
+        S4 = S5 = None
+        if cfg.get("twice", True) and (want("C01") or want("C02")):
+            # the same history entry is inverted a second time (e u r u r): an inversion must not wear out
+            # the stored action
+            try:
+                if is_user:
+                    r3 = p.tr.undo()
+                    S4 = Snap(p, k)
+                    r4 = p.tr.redo()
+                    S5 = Snap(p, k)
+                else:
+                    iv3 = iv2.inverse()
+                    S4 = Snap(p, k)
+                    iv3.inverse()
+                    S5 = Snap(p, k)
+                    r3 = r4 = True
+            except Unsupported:
+                raise
+            except Exception as e:
+                ctx.tag(f"second_inverse_raised:{type(e).__name__}")
+                if want("C01"):
+                    ctx.oblige("C01.inverse_applies_again", False, "C01")
+                if is_user and want("C02"):
+                    ctx.oblige("C02.repeated_undo_applies", False, "C02")
+                return
+            if want("C01"):
+                ctx.oblige("C01.second_undo", And(same_graph(S0, S4), same_attrs(S0, S4)), "C01")
+                ctx.oblige("C01.second_redo", And(same_graph(S1, S5), same_attrs(S1, S5)), "C01")
+            if is_user and want("C02"):
+                # the timeline of C02 predicts the states, not only the return values
+                ctx.oblige("C02.repeated_undo_reaches_timeline_state", And(same_graph(S0, S4), same_attrs(S0, S4)),
+                           "C02")
+                ctx.oblige("C02.repeated_redo_reaches_timeline_state", And(same_graph(S1, S5), same_attrs(S1, S5)),
+                           "C02")
+                ctx.oblige("C02.second_undo_redo_return", r3 is True and r4 is True, "C02")
+                ctx.oblige("C02.second_round_stack_kept", all(x is y for x, y in zip(S5.undo, S1.undo))
+                           and len(S5.undo) == len(S1.undo) and S5.redo == [], "C02")
         if want("C01"):
             ctx.oblige("C01.undo_graph", same_graph(S0, S2), "C01")
             ctx.oblige("C01.undo_attrs", same_attrs(S0, S2), "C01")
